@@ -37,6 +37,11 @@ trait Rep3<T: Tier>: Copy + Send + Sync {
     fn structure_dev(self) -> f64 {
         0.0
     }
+    /// the representation's own components ("= one()" is an equation between values of the type: for a quaternion,
+    /// -one() acts like one() but is not one())
+    fn comps(self) -> Vec<T> {
+        flat_m(self.mat()).to_vec()
+    }
 }
 impl<T: Tier> Rep3<T> for Matrix3<T> {
     const NAME: &'static str = "Matrix3";
@@ -162,6 +167,9 @@ impl<T: Tier> Rep3<T> for Quaternion<T> {
     fn rot_p(self, p: Point3<T>) -> Point3<T> {
         self.rotate_point(p)
     }
+    fn comps(self) -> Vec<T> {
+        qa(self).to_vec()
+    }
 }
 
 fn probes<T: Tier>() -> Vec<[T; 3]> {
@@ -218,6 +226,12 @@ fn judge<T: Tier, R: Rep3<T>>(ctx: &mut Ctx, ax: [T; 3], ang: Rad<T>, cs: (T::M,
     eq_mc::<T, 3>(ctx, &key(&format!("compose/{name}/r*invert(r)=one")), e.mat(), idw, slack);
     if T::EXACT {
         same_slice(ctx, &key(&format!("compose/{name}/r*invert(r)=one")), &flat_m(e.mat()), &flat_m(R::one().mat()));
+        same_slice(ctx, &key(&format!("compose/{name}/r*invert(r)=one/as-a-value")), &e.comps(), &R::one().comps());
+        same_slice(ctx, &key(&format!("compose/{name}/r*invert(r)=one/as-a-value")), &r.inv().mul(r).comps(), &R::one().comps());
+    } else {
+        let onec: Vec<T::M> = R::one().comps().iter().map(|x| x.lift().with_abs_err(8.0)).collect();
+        eq_slice::<T>(ctx, &key(&format!("compose/{name}/r*invert(r)=one/as-a-value")), &e.comps(), &onec, slack);
+        eq_slice::<T>(ctx, &key(&format!("compose/{name}/r*invert(r)=one/as-a-value")), &r.inv().mul(r).comps(), &onec, slack);
     }
 }
 
@@ -229,6 +243,8 @@ fn compose<R: Rep3<Ex>>(ctx: &mut Ctx, ax: [Ex; 3], k: i64, k2: i64) {
     eq_mc::<Ex, 3>(ctx, &key(&format!("compose/{}/angles-add", R::NAME)), b.mul(a).mat(), want, 1.0);
     // and the inverse is the rotation by the opposite angle
     eq_mc::<Ex, 3>(ctx, &key(&format!("compose/{}/invert-is-opposite-angle", R::NAME)), a.inv().mat(), model::axis_angle_mat(ax, ex::lattice_cs(-k)), 1.0);
+    // ... also as a value of the type: invert(R(a, k)) = R(a, -k) (a quaternion and its negative act alike)
+    same_slice(ctx, &key(&format!("compose/{}/invert-is-opposite-angle/as-a-value", R::NAME)), &a.inv().comps(), &R::axis_angle(mk_v3(ax), Rad(Ex::int(-k))).comps());
 }
 
 fn exact(rep: &mut Report) {
